@@ -13,7 +13,7 @@ from common import COQ, REPO, VERIF
 TR = os.path.join(COQ, "translated")
 
 
-def _run_tie(name, sources, translate, gen_file, proofs_file, prefix):
+def _run_tie(name, sources, translate, gen_file, proofs_file, prefix, pre_proofs=()):
     """translate, compile the generated definitions and the theorems about them.
     -> dict(name, ok, stage, log, theorems=[{name, checked, assumptions}], seconds)"""
     t0 = time.time()
@@ -31,10 +31,16 @@ def _run_tie(name, sources, translate, gen_file, proofs_file, prefix):
     os.makedirs(os.path.join(COQ, "gen"), exist_ok=True)
     wd = tempfile.mkdtemp(prefix="tie_", dir=os.path.join(COQ, "gen"))
     try:
-        open(os.path.join(wd, gen_file), "w").write(text)
-        shutil.copy(os.path.join(TR, proofs_file), wd)
+        # several generated files (gen_file a list, translate() a list of texts) and proof files they need first (pre_proofs)
+        gens = list(zip(gen_file, text)) if isinstance(gen_file, (list, tuple)) else [(gen_file, text)]
+        for gf, gt in gens:
+            open(os.path.join(wd, gf), "w").write(gt)
+        for pf in tuple(pre_proofs) + (proofs_file,):
+            shutil.copy(os.path.join(TR, pf), wd)
+        text = "".join(gt for _gf, gt in gens)
         flags = ["-Q", os.path.join(COQ, "theories"), "Pams", "-Q", wd, "PamsGen"]
-        for stage, f in (("compile-generated", gen_file), ("proofs", proofs_file)):
+        stages = [("compile-generated", gf) for gf, _gt in gens] + [("supporting-proofs", pf) for pf in pre_proofs] + [("proofs", proofs_file)]
+        for stage, f in stages:
             res["stage"] = stage
             p = subprocess.run(["timeout", "300", "coqc"] + flags + [os.path.join(wd, f)], cwd=wd, text=True,
                                stdout=subprocess.PIPE, stderr=subprocess.STDOUT)
@@ -384,6 +390,20 @@ def expiry_sweep_c04(seed=0, tier="quick", cov=None):
     if cov is not None:
         cov["clock_moves_checked"] = n
     return out
+
+
+def market_step_tie():
+    """capstone over the generated Market._update_time / _add_order / _cancel_order / _execute_orders: the step function assembled from
+    the source's own statements is the model's step_rec, for every operation and every sequence of operations"""
+    import py2coq_add
+    import py2coq_cancel
+    import py2coq_fill
+    import py2coq_tick
+    src = os.path.join(REPO, "pams", "market.py")
+    return _run_tie("translator:pams/market.py(step function from the generated methods)", src,
+                    lambda: [py2coq_tick.translate(REPO), py2coq_fill.translate(REPO), py2coq_add.translate(REPO), py2coq_cancel.translate(REPO)],
+                    ["TickGen.v", "FillGen.v", "AddGen.v", "CancelGen.v"], "MarketStepProofs.v", "MarketStep.",
+                    pre_proofs=("TickC06Proofs.v", "FillC08Proofs.v", "AddC04Proofs.v", "CancelC04Proofs.v"))
 
 
 def runner_tie():
